@@ -2,14 +2,20 @@ import CogentModel.Json
 import CogentModel.Model.Composable
 import CogentModel.Model.ParallelBook
 import Driver.C14Codec
+import Driver.C14Rich
 open CogentModel
 
 def handle (cmd : String) (j : J) : Except String J :=
   match cmd with
   | "call" => C14Codec.handleCall j
   | "apply" => C14Codec.handleApply j
+  | "callrich" => C14Rich.handleCallRich j
+  | "add" => C14Rich.handleAdd j
+  | "compose" => C14Rich.handleCompose j
   | "chunksize" => do
     pure (.num (ParallelBook.defaultChunksize (← (← j.get "n").toNat) (← (← j.get "w").toNat)))
+  | "chunksize_gen" => do
+    pure (.num (Gen.C14Call.getDefaultChunksize (← (← j.get "n").toNat) (← (← j.get "w").toNat)))
   | "chunks" => do
     let n ← (← j.get "n").toNat
     let c ← (← j.get "c").toNat
